@@ -63,6 +63,8 @@ pub struct Profile {
     pub hot_keys: bool,
     /// weights of (begin, read, write, commit, rollback, drop) inside the transaction op class
     pub tx_mix: [u32; 6],
+    /// never generate manual journal persist (database or keyspace level)
+    pub no_manual_persist: bool,
 }
 
 impl Default for Profile {
@@ -76,6 +78,7 @@ impl Default for Profile {
             big: true,
             hot_keys: false,
             tx_mix: [3, 8, 8, 4, 1, 1],
+            no_manual_persist: false,
         }
     }
 }
@@ -256,6 +259,7 @@ pub fn kscfg_s() -> BoxedStrategy<KsCfg> {
 pub fn cfg_s(p: &Profile) -> BoxedStrategy<Cfg> {
     let flavors = p.flavors.clone();
     let filters = p.filters;
+    let nomp = p.no_manual_persist;
     (
         (0..flavors.len()).prop_map(move |i| flavors[i]),
         any::<bool>(),
@@ -264,13 +268,20 @@ pub fn cfg_s(p: &Profile) -> BoxedStrategy<Cfg> {
         vec(kscfg_s(), 1..=p.max_ks),
         any::<u8>(),
     )
-        .prop_map(move |(flavor, journal_lz4, db_manual_persist, pos_scale, ks, fm)| Cfg {
-            flavor,
-            journal_lz4,
-            db_manual_persist,
-            pos_scale,
-            ks,
-            filter_mask: if filters { (fm & 0x0f) | 1 } else { 0 },
+        .prop_map(move |(flavor, journal_lz4, db_manual_persist, pos_scale, mut ks, fm)| {
+            if nomp {
+                for k in &mut ks {
+                    k.manual_persist = false;
+                }
+            }
+            Cfg {
+                flavor,
+                journal_lz4,
+                db_manual_persist: db_manual_persist && !nomp,
+                pos_scale,
+                ks,
+                filter_mask: if filters { (fm & 0x0f) | 1 } else { 0 },
+            }
         })
         .boxed()
 }
@@ -280,6 +291,7 @@ pub fn op_s(p: &Profile) -> BoxedStrategy<Op> {
     let ks = || any::<u16>();
     let k = key_s(p);
     let v = val_s(p);
+    let nomp0 = p.no_manual_persist;
     let mut alts: Vec<(u32, BoxedStrategy<Op>)> = vec![];
     let mut add = |wt: u32, s: BoxedStrategy<Op>| {
         if wt > 0 {
@@ -301,7 +313,11 @@ pub fn op_s(p: &Profile) -> BoxedStrategy<Op> {
             vec((ks(), k.clone(), prop::option::weighted(0.75, v.clone())), 1..8),
             0u8..5,
         )
-            .prop_map(|(items, dur)| Op::Batch { items, dur })
+            .prop_map(move |(items, dur)| Op::Batch {
+                items,
+                // durability(None) is a manual-persist choice of the caller
+                dur: if nomp0 && dur == 1 { 0 } else { dur },
+            })
             .boxed(),
     );
     add(w.clear, ks().prop_map(|ks| Op::Clear { ks }).boxed());
@@ -333,6 +349,7 @@ pub fn op_s(p: &Profile) -> BoxedStrategy<Op> {
         ]
         .boxed(),
     );
+    let nomp = p.no_manual_persist;
     let has_tx = w.tx > 0;
     let has_view = w.view > 0;
     add(
@@ -374,7 +391,12 @@ pub fn op_s(p: &Profile) -> BoxedStrategy<Op> {
     add(
         w.ks_admin,
         prop_oneof![
-            4 => (0u8..4, kscfg_s()).prop_map(|(name, cfg)| Op::CreateKs { name, cfg }),
+            4 => (0u8..4, kscfg_s()).prop_map(move |(name, mut cfg)| {
+                if nomp {
+                    cfg.manual_persist = false;
+                }
+                Op::CreateKs { name, cfg }
+            }),
             4 => (ks(), any::<bool>()).prop_map(|(ks, keep_handle)| Op::DeleteKs { ks, keep_handle }),
             2 => (any::<u16>(), k.clone(), prop::option::of(v.clone())).prop_map(|(i, k, v)| Op::StaleWrite { i, k, v }),
             1 => any::<u16>().prop_map(|i| Op::StaleDrop { i }),
